@@ -73,9 +73,12 @@ func sortStrings(s []string) {
 
 // c25Single checks the per-word oracles (mnemonic prefix, offset(base)).
 func c25Single(cfg rvx.Cfg, w uint32, in model.Instruction, name string) *eng.Fail {
-	txt := in.Details.String()
 	c := c25Case{Cfg: cfg, Word: w, Hex: fmt.Sprintf("%08x", w)}
 	tag := fmt.Sprintf("rv%d %s", cfg.XLEN, name)
+	var txt string
+	if p, stack := eng.Catch(func() { txt = in.Details.String() }); p != nil {
+		return &eng.Fail{Sig: tag + " String panic " + eng.PanicSite(stack), What: fmt.Sprintf("String() of %08x panics: %v", w, p), Case: c}
+	}
 	if !strings.HasPrefix(txt, in.Details.Name()+" ") && txt != in.Details.Name() {
 		return &eng.Fail{Sig: tag + " text-without-mnemonic", What: fmt.Sprintf("text %q does not start with mnemonic %q", txt, in.Details.Name()), Case: c}
 	}
@@ -107,12 +110,12 @@ func c25Pair(c c25Case) *eng.Fail {
 	if f := c25Single(c.Cfg, c.Word, a, name); f != nil {
 		return f
 	}
-	if c.Other == 0 || a.Details.String() != b.Details.String() {
+	if c.Other == 0 || detailsText(a) != detailsText(b) {
 		return nil
 	}
 	if wit := behaviourDiffers(c.Cfg, a, b, c.Word, c.Other); wit != "" {
 		return &eng.Fail{Sig: fmt.Sprintf("rv%d %s same-text-different-behaviour", c.Cfg.XLEN, name),
-			What: fmt.Sprintf("%s: %08x and %08x are both shown as %q but behave differently %s", c.Cfg, c.Word, c.Other, a.Details.String(), wit), Case: c}
+			What: fmt.Sprintf("%s: %08x and %08x are both shown as %q but behave differently %s", c.Cfg, c.Word, c.Other, detailsText(a), wit), Case: c}
 	}
 	return nil
 }
@@ -161,7 +164,7 @@ func init() {
 						r.Report(f)
 						return
 					}
-					txt := in.Details.String()
+					txt := detailsText(in)
 					d := sha1.Sum([]byte(showEffects(in)))
 					if e, ok := seen[txt]; ok {
 						if e.dig != d {
